@@ -18,7 +18,7 @@ AVOID = {'rename_model_m2m', 'multi_delete_hinted', 'index_cover', 'dbcol_dbinde
 
 @st.composite
 def histories(draw, feats=None, max_steps=2, kinds=None, allow_new_model=True, allow_new_app=True,
-              min_steps=1, max_len=4, apps=('pa', 'pb')):
+              min_steps=1, max_len=4, apps=('pa', 'pb'), backfills=False):
     """{'v0': spec, 'steps': [{'type': 'evolve', 'app': label, 'label': str, 'seq': [...]} |
                               {'type': 'new_model', 'app': label, 'model': ModelSpec} |
                               {'type': 'new_app', 'app': label, 'model': ModelSpec}]}"""
@@ -35,8 +35,26 @@ def histories(draw, feats=None, max_steps=2, kinds=None, allow_new_model=True, a
             choices.append('new_model')
         if allow_new_app and 'pc' not in cur['apps']:
             choices.append('new_app')
+        if backfills:
+            choices.append('backfill')
         typ = draw(st.sampled_from(choices))
         live_apps = [a for a in sorted(cur['apps']) if cur['apps'][a]['models']]
+        if typ == 'backfill':
+            # an evolution that leaves the signature alone: an SQLMutation that fills the
+            # NULLs of a nullable integer column with a constant
+            cands = [(a, n2, m, f) for a, n2, m in S.iter_models(cur) for f in m['fields']
+                     if f['kind'] in ('Integer', 'BigInteger') and f['null'] and not f['unique']
+                     and f['name'] not in S.all_meta_refs(m)]
+            if not cands:
+                continue
+            app, _n2, m, f = draw(st.sampled_from(cands))
+            k = 1 + sum(1 for x in steps if x['type'] == 'evolve' and x['app'] == app)
+            steps.append({'type': 'evolve', 'app': app, 'label': 'e%d' % k, 'seq': [{
+                'kind': 'SQLMutation', 'app': app, 'tag': 'backfill%d' % i,
+                'sql': ['UPDATE "%s" SET "%s" = 7 WHERE "%s" IS NULL;'
+                        % (S.table_of(app, m), S.column_of(f), S.column_of(f))],
+                'backfill': {'model': m['uid'], 'field': f['uid'], 'value': 7}}]})
+            continue
         if typ == 'evolve' and live_apps:
             app = draw(st.sampled_from(live_apps))
             opts = mutgen.WalkOpts(kinds=kinds, max_len=max_len, avoid=set(AVOID), only_apps=[app])
